@@ -169,7 +169,7 @@ def is_attr_of(n, obj, attr):
 
 # ------------------------------------------------------------------------------------------ C10
 
-def stores_in(fn, local_ok):
+def stores_in(fn, local_ok, np_names=('np',)):
     """Every construct of `fn` that could write outside its own locals (purity audit, independent of the
     structural translation): attribute/subscript stores, augmented assignment, del, global, calls other than
     the recursion and np.<ufunc> without keywords."""
@@ -186,7 +186,7 @@ def stores_in(fn, local_ok):
             f = n.func
             if isinstance(f, ast.Name) and f.id == fn.name:
                 continue
-            if isinstance(f, ast.Attribute) and isinstance(f.value, ast.Name) and f.value.id == 'np' and not n.keywords \
+            if isinstance(f, ast.Attribute) and isinstance(f.value, ast.Name) and f.value.id in np_names and not n.keywords \
                     and (f.attr in NUMPY_UNARY or f.attr in NUMPY_BINARY or f.attr == 'square'):
                 continue
             out.append('%d: call %s' % (n.lineno, ast.unparse(f)))
@@ -209,7 +209,14 @@ def nodeops(repo):
     node = a.args[0].arg
     body = fn_body(fn)
     # if node: ... else: return None
-    if not (len(body) == 1 and isinstance(body[0], ast.If) and isinstance(body[0].test, ast.Name) and body[0].test.id == node):
+    def none_test(t):
+        # `if node:` (Node defines neither __bool__ nor __len__, checked below) or `if node is not None:`
+        if isinstance(t, ast.Name) and t.id == node:
+            return True
+        return (isinstance(t, ast.Compare) and isinstance(t.left, ast.Name) and t.left.id == node and len(t.ops) == 1
+                and isinstance(t.ops[0], ast.IsNot) and isinstance(t.comparators[0], ast.Constant) and t.comparators[0].value is None)
+
+    if not (len(body) == 1 and isinstance(body[0], ast.If) and none_test(body[0].test)):
         raise TranslationError(rel, fn, 'expected `if %s:` as the only statement' % node)
     top = body[0]
     if not (len(top.orelse) == 1 and isinstance(top.orelse[0], ast.Return)
@@ -306,7 +313,7 @@ def nodeops(repo):
         raise TranslationError(rel, cur.orelse[0], 'unexpected final else branch in the dispatch')
     for name, term, line, text in chain:
         items.append({'file': rel, 'line': line, 'text': 'node.name == %r: %s  =>  %s' % (name, text, term)})
-    stores = stores_in(fn, set(env))
+    stores = stores_in(fn, set(env), tuple(k for k, v in aliases.items() if v == 'numpy'))
     # Node.position must be `return _evaluate(self)`; Node must stay truthy (no __bool__/__len__)
     cls = find_class(tree, 'Node')
     if cls is None:
